@@ -22,7 +22,8 @@ BUDGET = {"quick": {"workers": 8, "examples": 2000, "seconds": 30},
 
 AGENTS = ["a1", "a2", "a10", "b", "a_1"]
 COMPS = ["c1", "c2", "v1", "v10", "f_1"]
-nums = st.sampled_from([0, 1, 2, 5, 0.5, 7.25, 100, 1000000])
+# ... including integer costs that no float represents exactly (a big-M penalty plus a small preference)
+nums = st.sampled_from([0, 1, 2, 5, 0.5, 7.25, 100, 1000000, 2 ** 53 + 1, 10 ** 18 + 7])
 extras = st.dictionaries(st.sampled_from(["capacity", "foo", "pref", "zone"]),
                          st.one_of(st.integers(0, 1000), st.sampled_from(["x", "room1", 2.5])), max_size=3)
 
